@@ -348,6 +348,21 @@ func (r *Run) execCall(fr *Frame, st *State, reach Term, cc *ssa.CallCommon, ins
 	}
 	switch f := cc.Value.(type) {
 	case *ssa.Builtin:
+		if instr != nil && (f.Name() == "copy" || f.Name() == "append") {
+			// anchors before copy / append (ghost code and assertions about what is read or written)
+			ord := callOrdinal(instr.Parent(), instr, f.Name(), func(c *ssa.CallCommon) string { return r.calleeShortName(nil, c) })
+			av := map[string]Val{}
+			names := []string{"arg_dst", "arg_src"}
+			if f.Name() == "append" {
+				names = []string{"arg_s", "arg_elems"}
+			}
+			for i, n := range names {
+				if i < len(args) {
+					av[n] = args[i]
+				}
+			}
+			r.ghostAt(fr, st, reach, fmt.Sprintf("before:%s#%d", f.Name(), ord), instr, av)
+		}
 		return r.builtin(fr, st, reach, f.Name(), cc, args, instr), reach
 	}
 	// resolve the function statically where possible
